@@ -60,14 +60,14 @@ impl Offset {
                 #[cfg(unix)]
                 return {
                     let result = fs::read("/etc/localtime");
-                    match result {
-                        Ok(bytes) => {
-                            TimeZone::from_tzif(&bytes)
-                                .unwrap()
+                    match result.map(|bytes| TimeZone::from_tzif(&bytes)) {
+                        Ok(Ok(time_zone)) => {
+                            time_zone
                                 .to_local_time_type(DateTime::now().timestamp())
                                 .utoff
                         }
-                        Err(_) => 0,
+                        // Fall back to UTC if the time zone file is missing or damaged
+                        _ => 0,
                     }
                 };
             }
